@@ -6,7 +6,10 @@
 package enumdiff
 
 import (
+	stdjson "encoding/json"
 	"fmt"
+	"regexp"
+	"strconv"
 	"strings"
 	"sync"
 
@@ -27,6 +30,16 @@ var (
 	alpha8  = []byte("[],\"1/\n ")       // 8 bytes, length <= 6 / 7 / 8
 	alphaD  = []byte("[],1\"a")          // 6 bytes (duplicates), length <= 7 / 9
 )
+
+var spanRe = regexp.MustCompile(`(literal-end|array-end)\[(-?\d+):(-?\d+)\]`)
+
+// one JSON scalar token (the enum scanner's literals: strings, numbers, true / false / null)
+func scalarToken(t []byte) bool {
+	if len(t) == 0 || t[0] == '[' || t[0] == '{' || t[0] == ' ' || t[len(t)-1] == ' ' {
+		return false
+	}
+	return stdjson.Valid(t) && !strings.ContainsAny(string(t[:1]), " \t\r\n") && !strings.ContainsAny(string(t[len(t)-1:]), " \t\r\n")
+}
 
 type runner struct {
 	rep    *vh.Report
@@ -99,6 +112,28 @@ func (x *runner) flush() {
 		}
 		if he == "ok" && strings.Contains(ev, "annotation") {
 			x.rep.Stat("events_with_annotation")
+		}
+		// property level (C06: the spans of the events delimit what they name): every literal span is one JSON scalar
+		// token, every array span runs from its '[' to its ']' — whatever comes directly behind it (a comment, a comma)
+		if he == "ok" {
+			for _, m := range spanRe.FindAllStringSubmatch(ev, -1) {
+				bi, _ := strconv.Atoi(m[2])
+				ei, _ := strconv.Atoi(m[3])
+				bad := ""
+				switch {
+				case bi < 0 || ei >= len(b) || bi > ei:
+					bad = "span outside the text"
+				case m[1] == "literal-end" && !scalarToken(b[bi:ei+1]):
+					bad = fmt.Sprintf("literal span holds %q, which is not one JSON scalar token", b[bi:ei+1])
+				case m[1] == "array-end" && (b[bi] != '[' || b[ei] != ']'):
+					bad = fmt.Sprintf("array span holds %q", b[bi:ei+1])
+				}
+				if bad != "" {
+					x.rep.AddDiff(vh.Diff{Component: "C06-enum-spans", Input: fmt.Sprintf("enum rule text %q", b), Impl: bad + "; events: " + ev,
+						Model: "spans delimit the tokens they name"})
+					break
+				}
+			}
 		}
 		for k := 0; k < 2; k++ {
 			if impl[2*i+k] != model[2*i+k] {
